@@ -41,11 +41,7 @@ func VerifC12Play() {
 	dmask := uint8(1)<<uint(zz.Param("deltabits")) - 1
 	s := NewSMF1()
 	s.TimeFormat = MetricTicks(1000) // 120 BPM default tempo: exactly 500 microseconds per tick
-	type ev struct {
-		tick int64
-		idx  int
-	}
-	want := make([][]ev, T) // playable events per track, file order
+	want := make([][]c12ev, T)       // playable events per track, file order
 	for t := 0; t < T; t++ {
 		var tr Track
 		var abs int64
@@ -59,7 +55,7 @@ func VerifC12Play() {
 			}
 			vel := zz.U8("vel"+ks)&0x7F | 1
 			tr.Add(d, []byte{0x90 | byte(t), byte(i), vel})
-			want[t] = append(want[t], ev{abs, i})
+			want[t] = append(want[t], c12ev{abs, i})
 		}
 		tr.Close(0)
 		s.Add(tr)
@@ -84,6 +80,39 @@ func VerifC12Play() {
 	}
 	log := &c12log{}
 	ports := []*c12port{{0, log}, {1, log}}
+	// message type filter (Only): every message matching at least one listed type is played once, the others not at all
+	rd := &TracksReader{smf: s, tracks: sel}
+	matches := true
+	if zz.Param("filter") == 1 {
+		switch zz.Choice("only", 5) {
+		case 1:
+			rd.Only(midi.NoteOnMsg)
+		case 2:
+			rd.Only(midi.NoteOnMsg, midi.ChannelMsg)
+		case 3:
+			rd.Only(midi.ChannelMsg, midi.NoteOnMsg, midi.NoteOnMsg)
+		case 4:
+			rd.Only(midi.NoteOffMsg, midi.ControlChangeMsg)
+			matches = false
+		}
+	}
+	// `rounds` playbacks on the same reader, each with its own track-to-port map
+	for round := 0; round < 1+zz.Param("replays"); round++ {
+		log.sent = nil
+		if !c12round(s, rd, ports, log, want, selected, matches, T) {
+			return
+		}
+	}
+	zz.Reach("end")
+}
+
+type c12ev struct {
+	tick int64
+	idx  int
+}
+
+// one playback with a symbolic track-to-port map, checked against the expected events
+func c12round(s *SMF, rd *TracksReader, ports []*c12port, log *c12log, want [][]c12ev, selected []bool, matches bool, T int) bool {
 	routes := map[int]drivers.Out{}
 	route := make([]int, T) // expected port per track, -1 = not played
 	def := -1
@@ -102,22 +131,6 @@ func VerifC12Play() {
 	}
 	zz.Assume(len(routes) > 0)
 
-	// message type filter (Only): every message matching at least one listed type is played once, the others not at all
-	rd := &TracksReader{smf: s, tracks: sel}
-	matches := true
-	if zz.Param("filter") == 1 {
-		switch zz.Choice("only", 5) {
-		case 1:
-			rd.Only(midi.NoteOnMsg)
-		case 2:
-			rd.Only(midi.NoteOnMsg, midi.ChannelMsg)
-		case 3:
-			rd.Only(midi.ChannelMsg, midi.NoteOnMsg, midi.NoteOnMsg)
-		case 4:
-			rd.Only(midi.NoteOffMsg, midi.ControlChangeMsg)
-			matches = false
-		}
-	}
 	start := zz.ClockNs()
 	err := rd.MultiPlay(routes)
 	zz.Assert(err == nil, "play:ok")
@@ -131,7 +144,7 @@ func VerifC12Play() {
 	}
 	zz.Assert(len(log.sent) == total, "play:every-playable-event-exactly-once-and-nothing-else")
 	if len(log.sent) != total {
-		return
+		return false
 	}
 	next := make([]int, T) // per track: index into want[t] of the next expected event
 	var lastTime int64
@@ -141,11 +154,11 @@ func VerifC12Play() {
 		t := int(snt.data[0] & 0x0F)
 		if t >= T || !selected[t] || route[t] < 0 {
 			zz.Fail("play:message-of-unselected-or-unrouted-track")
-			return
+			return false
 		}
 		zz.Assert(next[t] < len(want[t]), "play:no-duplicate")
 		if next[t] >= len(want[t]) {
-			return
+			return false
 		}
 		e := want[t][next[t]]
 		orderOK = append(orderOK, int(snt.data[1]) == e.idx)
@@ -165,5 +178,5 @@ func VerifC12Play() {
 	zz.Assert(zz.And(routeOK...), "play:routed-to-mapped-port")
 	zz.Assert(zz.And(timeOK...), "play:merged-by-non-decreasing-time")
 	zz.Assert(zz.And(clockOK...), "play:not-before-scheduled-time")
-	zz.Reach("end")
+	return true
 }
